@@ -132,10 +132,10 @@ def set_params(conn, w, b, d, dt):
 
 def make_neuron(n, B, dt):
     if n["type"] == "LIF":
-        return LIF(tuple(n["shape"]), dt, rest_v=-60.0, reset_v=-65.0, thresh_v=-50.0, refrac_t=n["refrac"] * dt,
+        return LIF(tuple(n["shape"]), dt, rest_v=-60.0, reset_v=-65.0, thresh_v=-57.0, refrac_t=n["refrac"] * dt,
                    time_constant=n["tc"], resistance=n["R"], batch_size=B)
     if n["type"] == "ALIF":
-        m = ALIF(tuple(n["shape"]), dt, rest_v=-60.0, reset_v=-65.0, thresh_eq_v=-50.0, refrac_t=n["refrac"] * dt,
+        m = ALIF(tuple(n["shape"]), dt, rest_v=-60.0, reset_v=-65.0, thresh_eq_v=-57.0, refrac_t=n["refrac"] * dt,
                  tc_membrane=n["tc"], tc_adaptation=(8.0, 16.0), spike_increment=(1.0, 0.5), resistance=n["R"], batch_size=B)
         m.train()
         return m
